@@ -559,12 +559,16 @@ class Interp:
                 if all(not isinstance(o, tuple) or o[:1] not in (('sym',), ('t',), ('p',)) for o in list(coll.d) + [k]):
                     return False
                 # symbolic keys: unknown unless the same key object
+                if getattr(self, 'INJECTIVE_KEYS', False):
+                    return False
                 return None if (isinstance(k, tuple) or any(isinstance(o, tuple) for o in coll.d)) else False
         elif isinstance(coll, SetV):
             k = self.dkey(x)
             if k in coll.items:
                 return True
             if isinstance(x, K) and all(not isinstance(o, tuple) for o in coll.items):
+                return False
+            if getattr(self, 'INJECTIVE_KEYS', False):
                 return False
             return None if coll.items else False
         elif isinstance(coll, K) and isinstance(coll.v, (tuple, list, str, bytes, dict, range, set, frozenset)):
